@@ -91,11 +91,11 @@ def kerning_font(rng, writer="kern1"):
             size = rng.randint(1, min(3, len(pool)))
             members = [pool.pop() for _ in range(size)]
             if rng.random() < 0.2:
-                members.append("missing.glyph")
+                members.append(f"missing.glyph{side}{k}")      # a member that is not in the font (once per side: UFO groups are disjoint)
             groups.append({"name": f"{prefix}g{k}", "side": side, "members": members})
             k += 1
     if rng.random() < 0.15:
-        groups.append({"name": "public.kern1.empty", "side": 1, "members": ["missing.glyph"]})
+        groups.append({"name": "public.kern1.empty", "side": 1, "members": ["missing.other"]})
     # kerning entries
     g1 = [g["name"] for g in groups if g["side"] == 1]
     g2 = [g["name"] for g in groups if g["side"] == 2]
@@ -123,7 +123,7 @@ def kerning_font(rng, writer="kern1"):
            "info": {"unitsPerEm": 1000, "ascender": 800, "descender": -200, "familyName": "KernTest", "styleName": "Regular"},
            "kerning": [[l, r_, v] for (l, r_), v in entries.items()], "kernScale": 4,
            "groups": [[g["name"], g["members"]] for g in groups], "fea": "\n".join(fea), "lib": lib}
-    q = rng.choice([1, 1, 1, 5, 10])
+    q = rng.choice([1, 1, 1, 5, 10, 2, 4])
     return {"ufo": ufo, "q": q, "groupsAbs": groups, "writer": writer}
 
 
@@ -161,7 +161,7 @@ def anchors_font(rng):
     names = [n for n, _ in gl]
     marks = [m for m in marks if m in names]
     ligs = [l for l in ligs if l in names]
-    classes = rng.sample(BASE_ANCHORS, rng.randint(1, 3))
+    classes = rng.sample(BASE_ANCHORS, rng.randint(1, 4))
     anchors = {n: [] for n in names}
     for n in names:
         if n in marks:
@@ -218,7 +218,7 @@ def anchors_font(rng):
     ufo = {"glyphs": glyphs, "order": names, "glyphNames": names,
            "info": {"unitsPerEm": 1000, "ascender": 800, "descender": -200, "familyName": "MarkTest", "styleName": "Regular"},
            "fea": "\n".join(fea), "lib": lib}
-    return {"ufo": ufo, "q": rng.choice([1, 1, 5]), "anchorsAbs": anchors, "hasCats": has_cats,
+    return {"ufo": ufo, "q": rng.choice([1, 1, 5, 2, 10, 4]), "anchorsAbs": anchors, "hasCats": has_cats,
             "markOpts": {"groupMarkClasses": rng.random() < 0.3}}
 
 
@@ -236,20 +236,20 @@ def gdefcurs_font(rng):
         anchors = []
         if n in ("f_i", "f_f_i") and rng.random() < 0.8:
             k = 2 if n == "f_f_i" else 1
-            vals = [q4(rng, 100, 600) for _ in range(k)]
+            vals = [q4(rng, 100, 600) if rng.random() < 0.75 else rng.choice([0, 0, -80, 2]) for _ in range(k)]   # incl. exactly 0
             if rng.random() < 0.3:
                 vals.append(vals[0])                      # duplicate coordinate
             for j, v in enumerate(vals):
                 anchors.append({"n": f"caret_{j + 1}", "x": v * PS // 4, "y": 0})
             if rng.random() < 0.3:
-                anchors.append({"n": "vcaret_1", "x": 0, "y": q4(rng, 100, 600) * PS // 4})
+                anchors.append({"n": "vcaret_1", "x": 0, "y": rng.choice([q4(rng, 100, 600), 0]) * PS // 4})
         if rng.random() < 0.6 and n not in ("acutecomb",):
             suf = rng.choice(["", "", "", ".LTR", ".RTL", ".alt"])
             r = rng.random()
             if r < 0.75:
-                anchors.append({"n": "entry" + suf, "x": q4(rng, 0, 500) * PS // 4, "y": q4(rng, -50, 300) * PS // 4})
+                anchors.append({"n": "entry" + suf, "x": rng.choice([q4(rng, 0, 500), 0]) * PS // 4, "y": rng.choice([q4(rng, -50, 300), 0]) * PS // 4})
             if r > 0.25:
-                anchors.append({"n": "exit" + suf, "x": q4(rng, 0, 500) * PS // 4, "y": q4(rng, -50, 300) * PS // 4})
+                anchors.append({"n": "exit" + suf, "x": rng.choice([q4(rng, 0, 500), 0]) * PS // 4, "y": rng.choice([q4(rng, -50, 300), 0]) * PS // 4})
         glyphs[n] = {"cs": [box()], "comps": [], "anchors": anchors, "w": (0 if n == "acutecomb" else 500) * PS, "h": 0, "u": [cp] if cp else []}
     lib = {}
     cats = {}
